@@ -458,3 +458,20 @@ def check_C09(ctx):
 
 def replay_C09(ctx):
     return check_C09(ctx)
+
+
+def check_C20(ctx):
+    def classify(name, fields, run):
+        return ("C20:%s:%s" % (run["family"], fields[1]), "%s: the %s written is not what the specification gives for the value the application supplied" % (run["family"], fields[1]))
+    n = "60" if ctx.tier == "quick" else "600"
+    return pub_property(ctx, "C20", "Properties/C20.v",
+                        ["Pub/BaseActor.v (GetInbox, GetOutbox, handler), Pub/Util.v (dedupe_ordered_items, clear_sensitive), Base/Time.v (http_date), Pub/Monitors.v serve_step",
+                         "modelled, not verified: SHA-256 / base64 (the harness recomputes them over the captured bytes), encoding/json marshalling (bodies are compared as JSON values), time.Format (compared on every generated instant), the top-level @context (C01)"],
+                        {"monitors": ["serve_bad"], "classify": classify,
+                         "rule": "random pages with 0..11 items as IRIs or embedded values with duplicates anywhere, a stored value of every vocabulary type, Tombstones, hidden recipients at object depth 0..2, random clock instants; every single fault"},
+                        family_filter=lambda f: f.startswith("get:"),
+                        run_specs=[("get", ["-families", "get,gettypes", "-n", n, "-faults", "single", "-maxruns", "6000"])])
+
+
+def replay_C20(ctx):
+    return check_C20(ctx)
